@@ -12,7 +12,8 @@ TECHNIQUE = ('decision-table extraction: PowNode.compute_c_result_type (with the
              'has_constant_result and PyrexTypes.widest_numeric_type) is evaluated over its COMPLETE finite abstract domain '
              '(cpow x operand type kinds x exponent constant class x base sign class) and compared with docs/src/userguide/cpow_table.csv; '
              'path-sensitive contradiction analysis (L8) under the sentinel invariant of has_constant_result; template-key / emitted-call agreement; '
-             'clang AST of the instantiated IntPow helper')
+             'clang AST of the instantiated IntPow helper; truth table of the range guards around `ONE << n` over the complete boundary partition of n on ILP32/LP64/LLP64 '
+             '(C conversion rules applied by the checker\'s own evaluator)')
 DECIDES = ('(a) C07-L8: no value test on X.constant_result in PowNode is evaluated where `not X.has_constant_result()` holds (such a test is dead, so the '
            'widening it controls can never happen); '
            '(b) C07-TAB: for each of the ten cells of the documented cpow table every scenario of that cell gets the documented result kind '
@@ -23,8 +24,10 @@ DECIDES = ('(a) C07-L8: no value test on X.constant_result in PowNode is evaluat
            'shift loop (which would not terminate for a negative exponent); '
            '(d) C07-POWSW: every `case k` of the small-exponent switch in IntPow returns the monomial b**k; '
            '(e) C07-POW2: PowNode.py_operation_function selects the 1<<N helper __Pyx_PyNumber_(InPlace)PowerOf2 only for a base whose constant value is the *int* 2 '
-           '(not 2.0, not 2+0j), and the selected helper exists in the section it loads with the arity BinopNode emits for `**`.')
-NOT_DECIDED = ('values computed by the square-and-multiply loop of IntPow, by pow()/powf() and by __Pyx__PyNumber_PowerOf2 (overflow, NaN, exceptions); '
+           '(not 2.0, not 2+0j), and the selected helper exists in the section it loads with the arity BinopNode emits for `**`; '
+           '(f) C07-SHIFT: every power of two built as `ONE << n` in Optimize.c / CMath.c (the 1<<N fast path of __Pyx__PyNumber_PowerOf2) is reached only for shift counts that the enclosing '
+           'range guards keep within the value bits of the type of ONE (bits-2 for a signed, bits-1 for an unsigned literal) on ILP32, LP64 and LLP64 (rules/sC07.py).')
+NOT_DECIDED = ('values computed by the square-and-multiply loop of IntPow, by pow()/powf() and by __Pyx__PyNumber_PowerOf2 beyond the shift-width guards (how shiftby is obtained, exceptions, the fallback); '
                'that the operand types reaching compute_c_result_type are what the user wrote (coercions before PowNode); PowNode.coerce_to\'s fallback to '
                'cpow behaviour; complex operands (not in the documented table).  I5 via the generic emitted-call scanner was dropped: the callee of the '
                'emitted call is a run-time string (self.pow_func), the dedicated rule C07-INTPOW follows that attribute instead.')
@@ -64,6 +67,12 @@ MUTATIONS = [
     ('Cython/Utility/Optimize.c', 'macro __Pyx_PyNumber_PowerOf2(a, b, c) -> (a, b)', 'C07-POW2 arity: caught'),
     ('Cython/Compiler/ExprNodes.py', "return '__Pyx_PyNumber_PowerOf2' -> '__Pyx_PyNumber_Power2'", 'C07-POW2 name: caught'),
     ('Cython/Compiler/ExprNodes.py', 'PowNode.compute_c_result_type renamed / ExprNode.has_constant_result rewritten as `is not None`', 'ANALYSIS-ERROR (anchor / invariant)'),
+    ('Cython/Utility/Optimize.c', 'seed C07a: `(size_t)shiftby <= sizeof(long) * 8 - 2` -> `(size_t)shiftby < sizeof(long) * 8` around `1L << shiftby`', 'C07-SHIFT: caught'),
+    ('Cython/Utility/Optimize.c', 'first arm `- 2` -> `- 1`; first arm bounded by sizeof(PY_LONG_LONG) instead of sizeof(long)', 'C07-SHIFT: caught'),
+    ('Cython/Utility/Optimize.c', 'second arm `<= sizeof(unsigned PY_LONG_LONG) * 8 - 1` -> `<= ... * 8`', 'C07-SHIFT: caught'),
+    ('Cython/Utility/Optimize.c', '`1L << shiftby` -> `1 << shiftby` (int literal under the long bound); second arm shifts `((PY_LONG_LONG)1)` (signed)', 'C07-SHIFT: caught'),
+    ('Cython/Utility/Optimize.c', 'first guard as `shiftby < (Py_ssize_t) (sizeof(long) * CHAR_BIT) - 1`; variable renamed + guard as `!(sizeof(long) * 8 - 2 < (size_t)n_bits)`; '
+                                  'else-if chain turned into early return + `if ((size_t)shiftby < sizeof(unsigned PY_LONG_LONG) * 8)`', None),
     # behaviour preserving (all silent)
     ('Cython/Compiler/ExprNodes.py', 'rename local needs_widening -> widen in compute_c_result_type', None),
     ('Cython/Compiler/ExprNodes.py', 'compute type2_is_int before op1_is_definitely_positive; swap the operands of both `or`s', None),
@@ -753,4 +762,6 @@ def run(ctx):
     rules.append(ri)
     rules.append(rule_POWSW(ctx, intpow))
     rules.append(rule_POW2(ctx, dom, pow_cls))
+    from ..rules import sC07
+    rules.append(sC07.rule_shift(ctx))
     return rules
